@@ -83,6 +83,21 @@ INFO = {
              "(Trace_Algebra).",
         note="Relations are checked on observed results only (no semantic model of the regex needed); distinct timestamps per scenario.",
         ref="6/C19"),
+    "C09": dict(
+        text="TLC checks the sliding-window iterator (stepper, eviction, admission, one-sample look-ahead, skip-early) as a state machine "
+             "against Window(T) = {T-o-r <= ts <= T-o} after every step and the stamping of steps on the grid, for every bounded history of "
+             "sliding the window; all explored parameter combinations and random ones over all range functions are evaluated by Engine.Eval "
+             "under several grids and as instant queries, and TLC validates every returned point against the declarative value "
+             "(Metric.tla) - which makes the value at T independent of start, step and range-vs-instant evaluation.",
+        note="Values compared as exact small rationals recovered from float64 (1e-9); bounded timestamps/ranges + random larger ones.",
+        ref="6/C09"),
+    "C10": dict(
+        text="TLC checks that the grouping key (sorted, length-prefixed visible pairs under an injective hash) identifies exactly the visible "
+             "label set for every pair of small label sets, materialisation order and grouping clause; the pairs and random larger label "
+             "sets are evaluated repeatedly through Engine.Eval (map order re-randomised per run) and TLC validates that every series "
+             "appears once with the conserved value.",
+        note="Hash collisions outside the model; map orders sampled by repetition.",
+        ref="6/C10"),
 }
 
 NOT_YET = "no check registered yet in this revision (machinery under construction; see DESIGN.md section 6 for the planned model)"
